@@ -119,7 +119,7 @@ func runTokid(t *Tokid) (string, string) {
 		kind, dtofu = kind[:n-1], kind[n-1] == '1'
 	}
 	in := fmt.Sprintf("t via=%s kind=%s dtofu=%s dcsans=%s parses=%s", map[string]string{"": "config", "linkedca": "linkedca"}[t.Via], kind, c.B(dtofu), c.B(t.CustomSANs), c.B(!t.Garbage))
-	in += fmt.Sprintf(" jti=%s nonce=%s derived=%s awsvalid=0 sha=%s", c.X(t.JTI), c.X(t.Nonce), c.X(derived), c.X(sha256hex(tok)))
+	in += fmt.Sprintf(" jti=%s nonce=%s derived=%s awsvalid=0 sha=%s psha=%s", c.X(t.JTI), c.X(t.Nonce), c.X(derived), c.X(sha256hex(tok)), c.X(payloadSha(tok)))
 	_ = fmt.Sprintf("t ty=%s parses=%s jti=%s nonce=%s derived=%s awsvalid=0 sha=%s", t.Ty, c.B(!t.Garbage),
 		c.X(t.JTI), c.X(t.Nonce), c.X(derived), c.X(sha256hex(tok)))
 	var impl string
@@ -174,6 +174,12 @@ func cornerTokids() []*Tokid {
 			out = append(out, &Tokid{CustomSANs: cs, Ty: ty, JTI: "jc-" + randHex(), Nonce: "nc-" + randHex(), MirID: "mc-" + randHex(), Instance: "ic-" + randHex()})
 		}
 	}
+	for _, ty := range []string{"jwk", "x5c", "sshpop", "nebula", "oidc"} {
+		for _, n := range []int{255, 256, 400} {
+			id := randHex() + strings.Repeat("q", n-32)
+			out = append(out, &Tokid{Ty: ty, JTI: id, Nonce: id})
+		}
+	}
 	for _, ty := range tokidTypes {
 		out = append(out, &Tokid{Ty: ty, JTI: "j1-" + randHex(), Nonce: "n1-" + randHex(), MirID: "m-" + randHex(), Instance: "i-" + randHex()})
 		out = append(out, &Tokid{Ty: ty})
@@ -193,6 +199,11 @@ func genTokid(r *c.Rng) *Tokid {
 	}
 	if r.Chance(3, 4) {
 		t.Nonce = "n-" + randHex()
+	}
+	// ids around and beyond 255 bytes
+	if r.Chance(1, 5) {
+		pad := strings.Repeat("p", c.Pick(r, []int{221, 222, 223, 300, 1000}))
+		t.JTI, t.Nonce = t.JTI+pad, t.Nonce+pad
 	}
 	if r.Chance(3, 4) {
 		t.MirID = "m-" + randHex()
